@@ -62,10 +62,28 @@ def damage(rng: random.Random, text: str) -> tuple[str, str]:
     return "none", text
 
 
+TRICKY = ["240230", "240431", "230229", "241131", "240631", "240931", "240229", "000000", "999999", "123456", "240100", "241301", "240132",
+          "240230#0A", "240431#zz", "230229#00", "241131#0A1", "241939#00", "240100#00", "2024-02-30", "2023-02-29", "2024-04-31", "2024-13-01",
+          "2024-00-10", "2024-19-39", "2999-12-31", "2400", "2460", "0060", "P0", "P10", "o", "x", "ox"]
+
+
+def tricky_pages() -> list:
+    """Valid pages in which a date / ZID / time shaped word that is no real date sits at every position that is read specially."""
+    out = []
+    for w in TRICKY:
+        for k, t in enumerate([
+                f"# T\n\n- {w} body\n", f"# T\n\no P1 {w} body\n", f"# T\n\n- 240101 {w} body\n", f"# T\n\n- {w}\n",
+                f"# T {w}\n\n- a\n", f"# T\n# {w} k::v\n\n- a\n", f"# T\n\n################################ S {w}\n\n- a\n",
+                f"# T\n\n- a k:: v\n  * {w}\n  * k2:: {w}\n", f"# T\n\n- 240101#00 x\n  * {w} k:: v\n", f"# T\n\n- due::{w} a\n",
+                f"# T\n\n- [k:: {w}] a\n", f"# T\n\n# {w} comment\n- a {w}\n", f"# T\n\nx {w} {w} {w}\n"]):
+            out.append((f"tricky-{w}-{k}", "tricky", t))
+    return out
+
+
 def make_texts(seed: int, n: int) -> list:
     rng = random.Random(seed)
     g = bp.Gen(rng)
-    out = []
+    out = tricky_pages()
     while len(out) < n:
         base = bp.render_page(g.a_page(n_lines=(2, 12), meta_p=0.3))
         out.append((f"valid{len(out)}", "valid", base))
@@ -84,7 +102,7 @@ def make_texts(seed: int, n: int) -> list:
             out.append((f"str{len(out)}", "random-body", s))
         else:
             out.append((f"bin{len(out)}", "random-bytes", bytes(rng.randrange(256) for _ in range(rng.randint(0, 60)))))
-    return out[:n]
+    return out[:max(n, len(tricky_pages()) + 200)]
 
 
 class _Count:
